@@ -138,6 +138,10 @@ def install_monitor():
     Element.__setattr__ = elem_setattr
     _Property.__setattr__ = elem_setattr
     ObjectMeta.__setattr__ = meta_setattr
+    # the process-wide format checker is shared by every element tree
+    from statham.schema.validation.format import _FormatString
+
+    _FormatString.__setattr__ = elem_setattr
     for n in _MUTATORS_DICT:
         if n == "__setitem__":
             orig = _PropertyDict.__setitem__
@@ -160,6 +164,9 @@ def share_tree(el, _seen=None):
 
     if _seen is None:
         _seen = set()
+        from statham.schema.validation.format import format_checker
+
+        MON.add(format_checker)
     if id(el) in _seen:
         return el
     _seen.add(id(el))
@@ -292,6 +299,9 @@ def install_read_hooks(names):
     Element.__getattribute__ = inst_get
     _Property.__getattribute__ = inst_get
     ObjectMeta.__getattribute__ = meta_get
+    from statham.schema.validation.format import _FormatString
+
+    _FormatString.__getattribute__ = inst_get
 
 
 def record(make, v, thread_name):
@@ -375,6 +385,10 @@ def forced_run(make, va, vb, p):
     MON.keep.clear()
     MON.label.clear()
     MON.effective.clear()
+    import copy
+    from statham.schema.validation.format import format_checker
+
+    fc_saved = {k: copy.copy(val) for k, val in object.__getattribute__(format_checker, "__dict__").items()}
     el = share_tree(make())
     s0 = snapshot(el)
     parked = threading.Event()
@@ -411,7 +425,14 @@ def forced_run(make, va, vb, p):
         MON.active = False
         MON.gate = None
         MON.events = None
-    return out.get("A"), out.get("B"), snapshot(el) != s0
+    # "no state from an earlier call influences a later verdict": the same calls again, sequentially
+    again = (verdict(el, jcopy(va)), verdict(el, jcopy(vb)))
+    d = object.__getattribute__(format_checker, "__dict__")
+    for k in list(d):
+        if k not in fc_saved:
+            del d[k]
+    d.update(fc_saved)
+    return out.get("A"), out.get("B"), snapshot(el) != s0, again
 
 
 def harmful_schedule(make, values):
@@ -440,11 +461,11 @@ def harmful_schedule(make, values):
         for ib, vb in enumerate(values):
             for p in preemption_points(logs[ia], logs[ib]):
                 tried += 1
-                oa, ob, changed = forced_run(make, va, vb, p)
-                for name, got, want in (("A", oa, solo[ia]), ("B", ob, solo[ib])):
+                oa, ob, changed, again = forced_run(make, va, vb, p)
+                for name, got, want in (("A", oa, solo[ia]), ("B", ob, solo[ib]), ("A again, sequentially afterwards", again[0], solo[ia]), ("B again, sequentially afterwards", again[1], solo[ib])):
                     if got is None or got[0] != want[0] or (want[0] and not result_eq(got[1], want[1])):
-                        return "thread %s (value %r) under schedule [A(%r) parked after its shared event #%d, B(%r) runs to completion, A resumes]: verdict/result %r differs from its solo run %r" % (
-                            name, va if name == "A" else vb, va, p, vb, got and got[0], want[0])
+                        return "call %s (value %r) under schedule [A(%r) parked after its shared event #%d, B(%r) runs to completion, A resumes]: verdict/result %r differs from its solo run %r" % (
+                            name, va if name.startswith("A") else vb, va, p, vb, got and got[0], want[0])
                 if changed:
                     return "element tree (public state) changed under schedule [A(%r) parked after event #%d, B(%r)]" % (va, p, vb)
     harmful_schedule.tried = tried
@@ -501,6 +522,7 @@ TEMPLATES = {
     "array_of_objects": ("m: int", 'Array(Object.inline("It", properties={"a": Property(Integer(maximum=m), required=True)}), minItems=1)', "List[Dict[str, int]]", ["len(v) <= 2", "all(len(d) <= 1 and all(k in ('a', 'b') for k in d) for d in v)"]),
     "composition": ("m: int", 'parse_s({"anyOf": [{"type": "object", "title": "A", "required": ["a"], "properties": {"a": {"minimum": m}}}, {"type": "integer"}], "not": {"const": 3}, "oneOf": [{"type": "object", "title": "B"}, {"type": "integer", "maximum": m}]})', "Union[int, Dict[str, int]]", ["(not isinstance(v, dict)) or (len(v) <= 1 and all(k in ('a', 'b') for k in v))"]),
     "inherited": ("m: int", '_child(m)', DV, DPRE),
+    "format_uuid": ("m: int", 'AnyOf(String(format="uuid", minLength=m), Element(properties={"a": Property(String(format="uuid"), required=True)}, maxProperties=1))', "Union[int, str, Dict[str, str]]", ["not isinstance(v, str) or len(v) <= 2", "(not isinstance(v, dict)) or (len(v) <= 1 and all(k in ('a', 'b') for k in v) and all(len(x) <= 1 for x in v.values()))"]),
     "format_enum": ("m: int", 'Element(format="uuid", enum=["x", m, [m]], const=m, properties={"a": Property(String(format="nope"))})', "Union[int, str, Dict[str, int]]", ["not isinstance(v, str) or len(v) <= 2", "(not isinstance(v, dict)) or (len(v) <= 1 and all(k in ('a', 'b') for k in v))"]),
 }
 
@@ -525,6 +547,7 @@ PROBES = {
     "array_of_objects": '[[{"a": m}], [{"a": m + 1}], [], [{}]]',
     "composition": '[{"a": m}, {"a": m - 1}, 3, m, m + 1, "s"]',
     "inherited": '[{"a": m, "b": 1}, {"a": m - 1, "b": 1}, {"a": m}, {"a": m, "b": 1, "c": "x"}]',
+    "format_uuid": '["123e4567-e89b-12d3-a456-426614174000", "not-a-uuid", {"a": "123e4567-e89b-12d3-a456-426614174000"}, {"a": "zz"}, 5]',
     "format_enum": '["x", m, [m], "y", {"a": "s"}, {"a": 1}]',
 }
 
@@ -538,7 +561,7 @@ def make():
 return no_interference(make, v, {PROBES[name]})
 """
         hs.append(mk(f"c14_noninterference_{name}", f"{hargs}, v: {vt}", pre, body, timeout=200, group="step1",
-                     tier="quick" if name in ("class_required", "element_required", "parsed_typed", "tuple_items", "composition", "inherited") else "thorough",
+                     tier="quick" if name in ("class_required", "element_required", "parsed_typed", "tuple_items", "composition", "inherited", "format_uuid") else "thorough",
                      covers=f"{make}: no effective write to a pre-existing object during el(v)"))
     hs.append(mk("c14__monitor_sees", "m: int", [], 'return not monitor_sees(lambda: Object.inline("M", properties={"a": Property(Integer(minimum=m))}))', kind="witness", timeout=30))
     return hs
